@@ -124,3 +124,11 @@ Section correct.
       unfold run_vm. eapply steps_run; [exact St|]. apply done_run. exact Hd.
   Qed.
 End correct.
+
+(* more fuel does not change a finished run of the VM *)
+Lemma run_mono C : forall k s r sx, run C k s = (r, sx) -> r <> Err OutOfFuel -> forall j, run C (k + j) s = (r, sx).
+Proof.
+  induction k as [|k IH]; intros s r sx H Hn j.
+  - simpl in H. inversion H; subst. congruence.
+  - simpl in H |- *. destruct (step C s) as [s1|r1 sx1]; [now apply IH|exact H].
+Qed.
